@@ -75,6 +75,16 @@ Step == /\ l <= Len(Rec) /\ Rec[l].ev = "op"
                     Out(<<"VERDICT", "C32r", R.case, R.step, ReportOK(R), [k |-> R.op.k, ret |-> R.ret]>>)
               /\ (R.ok /\ ~MustFail(R.op, cur)) =>
                     Out(<<"VERDICT", "C17i", R.case, R.step, Isolated(cur, R.op, t), [k |-> R.op.k]>>)
+              \* C19: where incremental maintenance is on, a consistent read of every
+              \* relation from the incremental engine equals the relation's served facts
+              /\ (DOMAIN R.state.incr # {}) =>
+                    Out(<<"VERDICT", "C19", R.case, R.step,
+                          \A g \in DOMAIN R.state.incr : \A r \in DOMAIN R.state.incr[g] :
+                             /\ ToSetS(R.state.incr[g][r]) = Rel(t, g, r)
+                             /\ \A i, j \in DOMAIN R.state.incr[g][r] : i # j => R.state.incr[g][r][i] # R.state.incr[g][r][j],
+                          [k |-> R.op.k,
+                           bad |-> { p \in { p \in (DOMAIN R.state.incr) \X { "r", "s" } : p[2] \in DOMAIN R.state.incr[p[1]] } :
+                                       ToSetS(R.state.incr[p[1]][p[2]]) # Rel(t, p[1], p[2]) }]>>)
               /\ cur' = t
         /\ l' = l + 1
 
